@@ -167,29 +167,40 @@ def answer_loops_single_exit(ctx):
     the loop exists to give (their senders are dropped unanswered or stay parked)."""
     F = ctx.F
     n = 0
+    idx = {}
     for bid, b in sorted(F.bodies.items()):
         if b.crate != "d_engine_core" or is_test_body(b) or "/raft_role/" not in (b.file or ""):
             continue
         root = F.root_of[bid]
         per = {}
-        for (bi, t) in calls_matching(b, SEND):
+        cands = [(bi, t, [t["args"][0]]) for (bi, t) in calls_matching(b, SEND)]
+        # the element handed to a workspace function that answers it (`while let Some(req) = queue.pop_front() { self.process_x(req, ..) }`)
+        for (bi, t) in b.calls():
+            k = callee_key(t) or ""
+            if re.search(SEND, strip_generics(k)) or not k.startswith(("d_engine_", "<d_engine_")):
+                continue
+            if F.call_reaches(t, lambda c: re.search(SEND, strip_generics(c)) is not None, 3):
+                cands.append((bi, t, t["args"]))
+        for (bi, t, ops) in cands:
             h, early = loop_early_exits(F, b, bi)
             if h is None:
                 continue
             # only loops whose ELEMENT is (or holds) the sender being answered: a search loop that answers one captured
             # sender and breaks is not a batch answer
             el = b.term(h)["dest"]["l"]
-            if el not in Slice(F, b).operand(t["args"][0]).seen:
+            if not any(el in Slice(F, b).operand(o).seen for o in ops):
                 continue
             per.setdefault(h, []).append((bi, early))
-        for i, h in enumerate(sorted(per)):
+        for h in sorted(per):
             (bi, early) = per[h][0]
             n += 1
+            i = idx.get(root, 0)
+            idx[root] = i + 1
             ctx.check("C30-d", "%s#answer-loop[%d]#single-exit" % (fkey(root), i), not early,
                       "the loop answering the senders of a batch runs to the end of the batch",
                       "a loop that answers client response senders can be left early at %s: the remaining requests of the batch get no answer from it" % [loc(b, x) for (x, _y) in early[:3]],
                       loc(b, bi))
-    ctx.floor("C30-d", n, 20, "loops in raft_role that answer client response senders")
+    ctx.floor("C30-d", n, 26, "loops in raft_role that answer client response senders")
 
 
 def deadline_adts(F):
